@@ -884,13 +884,20 @@ impl<'a> Ctx<'a> {
                     // excused if the protocol was told the peer disconnected after the call, if any
                     // network connection between the two nodes ended after the call, if somebody
                     // force-closed, or if the run ended before the open time-out could fire
-                    let closed_after = evs.iter().any(|r| r.t >= *t && matches!(&r.k, K::PClosed { proto: p, peer: q } if *p == proto && q == peer));
+                    // The request must be answered by the open time-out; only what happens until then
+                    // can excuse silence (a process stall of this node moves the deadline).
+                    let mut deadline = *t + (self.sub_open_ms + 2_000) * 1_000_000;
+                    let first_deadline = deadline;
+                    for f in self.freezes.iter().filter(|f| f.0 == i && f.1 <= first_deadline && f.2 >= *t) {
+                        deadline = deadline.max(f.2 + (self.sub_open_ms + 2_000) * 1_000_000);
+                    }
+                    let closed_after = evs.iter().any(|r| r.t >= *t && r.t <= deadline && matches!(&r.k, K::PClosed { proto: p, peer: q } if *p == proto && q == peer));
                     // (a host that vanished silently: SimNet records the instant of the vanishing,
                     // the surviving end notices - and terminates the connection - only at its next
                     // write, possibly this very request)
-                    let net_end = self.conns_between(i, *peer).iter().any(|c| c.3.is_some_and(|d| d >= *t)) || self.dead.get(peer) == Some(&true);
-                    let forced = evs.iter().any(|r| r.t >= *t && matches!(&r.k, K::PForceClose { peer: q, .. } if q == peer));
-                    let too_late = *t + (self.sub_open_ms + 2_000) * 1_000_000 > self.end_ns;
+                    let net_end = self.conns_between(i, *peer).iter().any(|c| c.3.is_some_and(|d| d >= *t && d <= deadline)) || self.dead.get(peer) == Some(&true);
+                    let forced = evs.iter().any(|r| r.t >= *t && r.t <= deadline && matches!(&r.k, K::PForceClose { peer: q, .. } if q == peer));
+                    let too_late = deadline > self.end_ns;
                     if !(closed_after || net_end || forced || too_late) {
                         v.push(("c08:open-never-answered".into(), format!("node {i} protocol {proto}: open_substream(n{peer}) -> {id} at {:.3}s got neither SubstreamOpened nor SubstreamOpenFailure although no connection to the peer ended", *t as f64 / 1e9)));
                     }
